@@ -143,6 +143,18 @@ type dtRow struct {
 	existsOthers bool
 	// track: the row is about the value an integer local has accumulated: always read under dtTrack
 	track bool
+	// resultIs: (effects that are return statements) the effect counts only where the first returned expression, read
+	// through the locals the path assigned, is this canonical text
+	resultIs string
+	// when: a further condition on the effect node, evaluated per path: resolve reads a local through the expression the
+	// path last assigned to it (under dtTrack; the identity otherwise)
+	when func(resolve func(ast.Expr) ast.Expr, info *types.Info, n ast.Node) bool
+	// returns: the row is about the function's boolean result: it "does it" on the paths to a return statement whose
+	// result expression evaluates to *returns (find is not used)
+	returns *bool
+	// alts: other complete descriptions of the same obligation (the same behaviour reached through a helper that has its own
+	// rows, say): the obligation holds if the row or one of these holds. Each inherits fn, key and why when it leaves them empty.
+	alts []dtRow
 	// ifExists: the row describes a helper predicate that callers are read through (it is inlined where it is used): when
 	// the helper does not exist the rows about its callers carry the obligation alone
 	ifExists bool
@@ -568,6 +580,57 @@ func runDecisionRows(c *core.Ctx, e *Env, pkgPath, defaultType string, rows []dt
 			}
 		}
 	}
+	// alternative descriptions of the rows that still fail
+	for _, r := range rows {
+		if len(r.alts) == 0 {
+			continue
+		}
+		key := r.fn + ":" + r.key
+		failing := false
+		for _, o := range c1.Obs {
+			if o.Construct == key && o.Verdict != core.OK {
+				failing = true
+			}
+		}
+		if !failing {
+			continue
+		}
+		for _, alt := range r.alts {
+			if alt.fn == "" {
+				alt.fn = r.fn
+			}
+			alt.key = r.key
+			if alt.why == "" {
+				alt.why = r.why
+			}
+			if alt.fn != r.fn {
+				continue
+			}
+			ca := c.Fork()
+			runDecisionRows(ca, e, pkgPath, defaultType, []dtRow{alt})
+			good, n := true, 0
+			var okOb core.Obligation
+			for _, o := range ca.Obs {
+				if o.Construct != key {
+					continue
+				}
+				n++
+				if o.Verdict != core.OK {
+					good = false
+				} else {
+					okOb = o
+				}
+			}
+			if good && n > 0 {
+				for i, o := range c1.Obs {
+					if o.Construct == key && o.Verdict != core.OK {
+						c1.Obs[i] = okOb
+					}
+				}
+				break
+			}
+		}
+	}
 	c.Obs = append(c.Obs, c1.Obs...)
 	for k, v := range c1.Stats {
 		c.Stats[k] += v
@@ -612,6 +675,12 @@ func runDecisionRowsOnce(c *core.Ctx, e *Env, pkgPath, defaultType string, rows 
 		fr := &dtFrame{info: info, subst: map[types.Object]dtBound{}, recv: recv}
 		for bi := range row.bools {
 			row.bools[bi] = canonEq(row.bools[bi])
+		}
+		if row.returns != nil {
+			row.find = func(_ *types.Info, n ast.Node) bool {
+				r, isRet := n.(*ast.ReturnStmt)
+				return isRet && len(r.Results) == 1
+			}
 		}
 		ev := newDtEval(e)
 		ev.occ = row.occ
@@ -916,6 +985,15 @@ func runDecisionRowsOnce(c *core.Ctx, e *Env, pkgPath, defaultType string, rows 
 						evalErr = err
 					}
 				}
+				if rs, isRet := ef.node.(*ast.ReturnStmt); isRet && row.returns != nil && len(rs.Results) == 1 {
+					vfr := fr
+					if ef.fr != nil {
+						vfr = ef.fr
+					}
+					if _, err := ev.evalBool(rs.Results[0], vfr, env); err != nil && env != nil {
+						evalErr = err
+					}
+				}
 			}
 		}
 		if row.occ {
@@ -1202,9 +1280,42 @@ func runDecisionRowsOnce(c *core.Ctx, e *Env, pkgPath, defaultType string, rows 
 								evalErr = err
 								return false
 							}
+							if ok && row.returns != nil {
+								rs, isRet := ef.node.(*ast.ReturnStmt)
+								vfr := fr
+								if ef.fr != nil {
+									vfr = ef.fr
+								}
+								if !isRet || len(rs.Results) != 1 {
+									ok = false
+								} else {
+									v, err := ev.evalBool(rs.Results[0], vfr, env)
+									if err != nil {
+										evalErr = err
+										return false
+									}
+									ok = v == *row.returns
+								}
+							}
+							if ok && row.when != nil {
+								vfr := fr
+								if ef.fr != nil {
+									vfr = ef.fr
+								}
+								ok = row.when(func(x ast.Expr) ast.Expr { rx, _ := ev.symExpr(x, vfr, env); return rx }, vfr.info, ef.node)
+							}
+							if ok && row.resultIs != "" {
+								rs, isRet := ef.node.(*ast.ReturnStmt)
+								vfr := fr
+								if ef.fr != nil {
+									vfr = ef.fr
+								}
+								ok = isRet && len(rs.Results) > 0 && ev.canonSym(rs.Results[0], vfr, env) == row.resultIs
+							}
 							got = got || ok
 						}
 					}
+					env.store, env.sym, env.flags = nil, nil, nil
 					if row.existsOthers {
 						// project on the declared atoms; compare after the enumeration
 						var parts []string
